@@ -31,6 +31,7 @@ type c08Plan struct {
 	Policy      simnet.Policy
 	Direct      bool // observe the raw reply through the handler wrapper instead of end to end
 	SecondAsker bool // a second asker fetches the same key concurrently
+	Prior       []byte // non-empty: the asker ran with this version set before (same identity and endpoint), contacted the responder, and restarted
 }
 
 func genSize(t *rapid.T) int {
@@ -62,7 +63,11 @@ func genPolicy(t *rapid.T) simnet.Policy {
 
 func genC08(t *rapid.T) c08Plan {
 	sets := [][]byte{{0}, {1}, {0, 1}, {1, 0}} // the order in which a record lists its versions must not matter
-	return c08Plan{VA: rapid.SampledFrom(sets).Draw(t, "va"), VB: rapid.SampledFrom(sets).Draw(t, "vb"),
+	var prior []byte
+	if rapid.IntRange(0, 3).Draw(t, "hasprior") == 0 {
+		prior = rapid.SampledFrom([][]byte{{0}, {1}, {0, 1}}).Draw(t, "prior")
+	}
+	return c08Plan{Prior: prior, VA: rapid.SampledFrom(sets).Draw(t, "va"), VB: rapid.SampledFrom(sets).Draw(t, "vb"),
 		Held: rapid.IntRange(0, 3).Draw(t, "held") != 0, Size: genSize(t), Seed: rapid.Byte().Draw(t, "seed"),
 		KeySeed: rapid.Uint32().Draw(t, "key"), Table: genTableNodes(t, rapid.SampledFrom([]int{0, 6, 40, 272}).Draw(t, "maxN")),
 		AskerInTab: rapid.Bool().Draw(t, "askerInTab"), Policy: genPolicy(t), Direct: rapid.IntRange(0, 2).Draw(t, "direct") == 0,
@@ -115,11 +120,32 @@ func runC08(p c08Plan, c *stats.Case) error {
 		return fmt.Errorf("harness: %v", err)
 	}
 	defer b.Stop()
-	a, err := pp.NewLive(hub, pp.LiveOpts{KeyIdx: 52, Port: nextPort(), Versions: p.VA, UtpFast: true, RespTimeout: 400 * time.Millisecond})
+	portA := nextPort()
+	var priorSeq uint64
+	if len(p.Prior) > 0 {
+		// the responder holds the asker's record from an earlier life in which it advertised other versions; after
+		// the restart the asker's record is newer and the responder learns it in the handshake
+		a0, err := pp.NewLive(hub, pp.LiveOpts{KeyIdx: 52, Port: portA, Versions: p.Prior, UtpFast: true, RespTimeout: 400 * time.Millisecond})
+		if err != nil {
+			return fmt.Errorf("harness: %v", err)
+		}
+		_, perr := a0.P.VerifPing(b.Node())
+		priorSeq = a0.Node().Seq()
+		a0.Stop()
+		if perr == nil && !bytes.Equal(p.Prior, p.VA) {
+			c.Class("asker-restarted-with-other-version-set")
+		}
+		time.Sleep(40 * time.Millisecond) // sequence numbers start from the millisecond clock: the new record is newer
+	}
+	a, err := pp.NewLive(hub, pp.LiveOpts{KeyIdx: 52, Port: portA, Versions: p.VA, UtpFast: true, RespTimeout: 400 * time.Millisecond})
 	if err != nil {
 		return fmt.Errorf("harness: %v", err)
 	}
 	defer a.Stop()
+	if len(p.Prior) > 0 && a.Node().Seq() <= priorSeq {
+		c.Class("harness:restarted-record-not-newer")
+		return nil
+	}
 
 	key := append([]byte{0x00}, byte(p.KeySeed), byte(p.KeySeed>>8), byte(p.KeySeed>>16), byte(p.KeySeed>>24))
 	contentID := b.P.ToContentId(key)
